@@ -340,6 +340,21 @@ type stExec struct {
 	nlist   int
 	fullLen map[string]int // crash: plaintext length of the complete version of a file
 	nextExp uint32
+	// streams "store" and "restart": the store's search objects are executed at once, at once and
+	// again after the next operation that changes the store (add, remove, flush, rotation, eviction,
+	// compaction trigger, a worker step), or only after it (rexec.go); what is still waiting when
+	// the store is closed is executed before the Close
+	rexOn bool
+	rex   rexQueue
+}
+
+// schedule puts the execution of an already built search object on the case's schedule.
+func (e *stExec) schedule(exec func()) {
+	if e.rexOn {
+		e.rex.next(exec)
+	} else {
+		exec()
+	}
 }
 
 func (e *stExec) emit(format string, a ...any) { e.lines = append(e.lines, fmt.Sprintf(format, a...)) }
@@ -607,6 +622,7 @@ func (e *stExec) closeStore() {
 	if e.store == nil {
 		return
 	}
+	e.rex.run()
 	e.quiesce()
 	e.h.mu.Lock()
 	e.h.free = true
@@ -781,9 +797,6 @@ func stIdsLine(res []comet.HybridSearchResult) string {
 }
 
 func (e *stExec) search(q string, kmode int) {
-	e.h.mu.Lock()
-	e.h.turns, e.h.loads = nil, 0
-	e.h.mu.Unlock()
 	if e.lastN == nil {
 		e.lastN = map[string]int{}
 	}
@@ -815,26 +828,31 @@ func (e *stExec) search(q string, kmode int) {
 	case "md":
 		s = s.WithMetadata(comet.Eq("c", "y"))
 	}
-	res, err := s.Execute()
-	e.h.mu.Lock()
-	turns := strings.Join(e.h.turns, ",")
-	loads := e.h.loads
-	e.h.mu.Unlock()
-	if turns == "" {
-		turns = "-"
-	}
-	if err != nil {
-		kk := storeErr(err)
-		if strings.Contains(err.Error(), "specified but no") {
-			kk = "noindex"
+	e.schedule(func() {
+		e.h.mu.Lock()
+		e.h.turns, e.h.loads = nil, 0
+		e.h.mu.Unlock()
+		res, err := s.Execute()
+		e.h.mu.Lock()
+		turns := strings.Join(e.h.turns, ",")
+		loads := e.h.loads
+		e.h.mu.Unlock()
+		if turns == "" {
+			turns = "-"
 		}
-		e.emit("op search %s k=%d turns=%s loads=%d => err %s", q, k, turns, loads, kk)
-		return
-	}
-	if kmode == 0 {
-		e.lastN[base] = len(res)
-	}
-	e.emit("op search %s k=%d turns=%s loads=%d => ok %s", q, k, turns, loads, stIdsLine(res))
+		if err != nil {
+			kk := storeErr(err)
+			if strings.Contains(err.Error(), "specified but no") {
+				kk = "noindex"
+			}
+			e.emit("op search %s k=%d turns=%s loads=%d => err %s", q, k, turns, loads, kk)
+			return
+		}
+		if kmode == 0 {
+			e.lastN[base] = len(res)
+		}
+		e.emit("op search %s k=%d turns=%s loads=%d => ok %s", q, k, turns, loads, stIdsLine(res))
+	})
 }
 
 func (e *stExec) add(cmd stCmd, explicit bool) {
@@ -983,33 +1001,37 @@ func (e *stExec) osearch(o *stOpt) {
 			k = len(hits)
 		}
 	}
+	// the reference's and the store's search object, configured identically; each execution puts
+	// the probe to both as they are then
 	rs, desc := e.applyOpts(e.ref.NewSearch(), o, k, thr)
-	refRes, refErr := rs.Execute()
-	e.h.mu.Lock()
-	e.h.turns, e.h.loads = nil, 0
-	e.h.mu.Unlock()
 	ss, _ := e.applyOpts(e.store.NewSearch(), o, k, thr)
-	res, err := ss.Execute()
-	e.h.mu.Lock()
-	turns := strings.Join(e.h.turns, ",")
-	loads := e.h.loads
-	e.h.mu.Unlock()
-	if turns == "" {
-		turns = "-"
-	}
-	// is the vector side exact? flat always; ivf when every list is probed
-	exact := e.c.Vec == "flat" || (e.c.Vec == "ivf" && o.Np != 2)
-	commute := o.Mode == "vec" && o.Cut == 0
-	head := fmt.Sprintf("op osearch %s k=%d turns=%s loads=%d exactix=%d commute=%d%s", o.Mode, k, turns, loads, stB01(exact), stB01(commute), desc)
-	refS := "err"
-	if refErr == nil {
-		refS = stIdsLine(refRes)
-	}
-	if err != nil {
-		e.emit("%s => err %s ref %s", head, storeErr(err), refS)
-		return
-	}
-	e.emit("%s => ok %s ref %s", head, stIdsLine(res), refS)
+	e.schedule(func() {
+		refRes, refErr := rs.Execute()
+		e.h.mu.Lock()
+		e.h.turns, e.h.loads = nil, 0
+		e.h.mu.Unlock()
+		res, err := ss.Execute()
+		e.h.mu.Lock()
+		turns := strings.Join(e.h.turns, ",")
+		loads := e.h.loads
+		e.h.mu.Unlock()
+		if turns == "" {
+			turns = "-"
+		}
+		// is the vector side exact? flat always; ivf when every list is probed
+		exact := e.c.Vec == "flat" || (e.c.Vec == "ivf" && o.Np != 2)
+		commute := o.Mode == "vec" && o.Cut == 0
+		head := fmt.Sprintf("op osearch %s k=%d turns=%s loads=%d exactix=%d commute=%d%s", o.Mode, k, turns, loads, stB01(exact), stB01(commute), desc)
+		refS := "err"
+		if refErr == nil {
+			refS = stIdsLine(refRes)
+		}
+		if err != nil {
+			e.emit("%s => err %s ref %s", head, storeErr(err), refS)
+			return
+		}
+		e.emit("%s => ok %s ref %s", head, stIdsLine(res), refS)
+	})
 }
 
 // badAdd issues an Add / AddWithID that the store must reject — and that must leave nothing
@@ -1102,6 +1124,17 @@ func (e *stExec) do(cmd stCmd) {
 		return
 	}
 	switch cmd.Op {
+	case "add", "addid", "remove", "flush", "rotate", "evict", "trigger", "badadd", "bg":
+		// search objects waiting for the next change of the store (a `bg` command for an idle
+		// worker does nothing and emits nothing)
+		n := len(e.lines)
+		defer func() {
+			if len(e.lines) > n {
+				e.rex.run()
+			}
+		}()
+	}
+	switch cmd.Op {
 	case "add":
 		e.add(cmd, false)
 	case "addid":
@@ -1158,7 +1191,7 @@ func withStoreEnv(c *stCase, stream string, f func(e *stExec)) []string {
 		return []string{"begin " + stream + " 0 0 0 1 1 1", "op panic mkdtemp: " + err.Error(), "end"}
 	}
 	defer os.RemoveAll(dir)
-	e := &stExec{c: c, stream: stream, dir: filepath.Join(dir, "db"), h: newSched()}
+	e := &stExec{c: c, stream: stream, dir: filepath.Join(dir, "db"), h: newSched(), rexOn: stream == "store" || stream == "restart"}
 	dispatchOnce.Do(func() { comet.VerifSetPointHandler(dispatchPoint) })
 	schedReg.Store(curGoid(), e.h)
 	defer func() {
